@@ -275,6 +275,7 @@ func main() {
 					}
 				}
 			}
+			// (large values with a small spread are a separate family below)
 			// fractional thresholds (names carry the integer part, the cut-off does not)
 			for _, p := range []float64{99.9, 2.5, -99.5, 12.9, 37.6, -62.6, 87.7} {
 				for rpi := range ratePats[:2] {
@@ -303,7 +304,7 @@ func main() {
 				}
 			}
 			// histogram family
-			for _, tag := range []string{"1_5", "-10_0_2.5", "10__20", "10_bad_20", "bad", "", "5_1", "1_1", "0.5_3_+Inf"} {
+			for _, tag := range []string{"1_5", "-10_0_2.5", "10__20", "10_bad_20", "bad", "", "5_1", "1_1", "0.5_3_+Inf", "x_y_10", "fast_medium_slow"} {
 				for _, lim := range []uint32{0, 1, 2, math.MaxUint32} {
 					check(tcase{Values: cur, Hist: true, HistTag: tag, HistLim: lim, Interval: time.Second, Pcts: []float64{90}})
 				}
@@ -317,6 +318,25 @@ func main() {
 		}
 	}
 	rec(nil)
+	// values that are large compared with their spread (epoch milliseconds, byte counts): the statistics, the
+	// standard deviation in particular, must be those of the values, not of their rounding errors
+	big := []float64{1e9, 1e9 + 1, 1e9 + 3, 1.7e12, 1.7e12 + 250}
+	var recBig func(cur []float64)
+	recBig = func(cur []float64) {
+		if len(cur) >= 2 {
+			i++
+			if vrt.Mine(i) {
+				check(tcase{Values: cur, RatePat: 0, Grouping: 0, Pcts: []float64{50}, Interval: time.Second, Mask: 0})
+			}
+		}
+		if len(cur) == 3 {
+			return
+		}
+		for _, v := range big {
+			recBig(append(append([]float64{}, cur...), v))
+		}
+	}
+	recBig(nil)
 	res.Sample(tcase{Values: []float64{10, -2, 1, 1}, RatePat: 2, Pcts: []float64{-90, 50}, Interval: time.Second, Mask: 3})
 	res.Sample(tcase{Values: []float64{3, 0}, Hist: true, HistTag: "-10_0_2.5", HistLim: 2, Interval: time.Second})
 	res.SetDistinctKeys(distinct)
